@@ -1,5 +1,6 @@
 import Tmv.Lemmas.MerkleComplete
 import Tmv.Lemmas.MerkleInclusion
+import Tmv.Lemmas.MerkleTraced
 import Tmv.Model.PartSet
 import Tmv.Model.TxProof
 /-! # C10 — Block parts and Merkle proofs bind content to position
@@ -64,6 +65,45 @@ theorem verify_position (L : Nat) (hL : 0 < L) (hlen : ∀ x, (H x).length = L)
     by_cases hx : (0 :: leaf : Bytes) = 0 :: items[p.index.toNat]
     · left; exact ⟨by omega, hi, (List.cons.inj hx).2⟩
     · right; exact ⟨⟨_, _, hx, hleaf'⟩⟩
+  · right; exact hc
+
+/-- `verify_position` with a *traced* collision: the alternative to the claim is a collision
+between two byte strings that were actually passed to `H` in this very run — `0x00‖leaf` or an
+inner node of the claimed path on one side, a node of the real tree on the other. (For a
+fixed-length `H` "some collision exists" is true by counting and would make the disjunction
+classically trivial; a collision inside these explicitly listed, linearly many inputs is not.) -/
+theorem verify_position_traced (L : Nat) (hL : 0 < L) (hlen : ∀ x, (H x).length = L)
+    (items : List Bytes) (hne : items ≠ []) (leaf : Bytes) (p : Proof)
+    (ht : p.total = items.length)
+    (hv : verify H (root H items) leaf p = .ok ()) :
+    (0 ≤ p.index ∧ ∃ h : p.index.toNat < items.length, leaf = items[p.index.toNat])
+      ∨ CollisionIn H
+          ((0 :: leaf) :: pathPre H items.length p.index.toNat items.length (leafHash H leaf) p.aunts)
+          (rootPre H items.length items) := by
+  unfold verify at hv
+  split at hv; · cases hv
+  split at hv; · cases hv
+  rename_i hidx
+  split at hv; · cases hv
+  rename_i hleaf
+  have hrootlen : (root H items).length = L := rootF_len H L hlen _ _
+  have hrne : root H items ≠ [] := by
+    intro h; rw [h] at hrootlen; simp at hrootlen; omega
+  have hcomp : computeRoot H p = some (root H items) := by
+    split at hv
+    · simp [hrne] at hv
+    · rename_i h heq; split at hv
+      · rename_i e; rw [heq, e]
+      · cases hv
+  unfold computeRoot at hcomp
+  split at hcomp; · cases hcomp
+  rw [ht] at hcomp
+  simp only [Int.toNat_natCast] at hcomp
+  have hlh : p.leafHash = leafHash H leaf := by simpa using hleaf
+  rw [hlh] at hcomp
+  rcases fromAunts_position_traced H L hlen items.length items p.index.toNat leaf p.aunts
+      (Nat.le_refl _) hne hcomp with ⟨hi, he⟩ | hc
+  · left; exact ⟨by omega, hi, he⟩
   · right; exact hc
 
 /-- Inclusion with nothing pinned: whatever (index,total,path) the proof states, if it verifies
